@@ -6,7 +6,7 @@ IDM = [1, 0, 0, 0, 1, 0, 0, 0, 1]
 CELL_DEFAULTS = {'mat': 0, 'rho': 0, 'rhotxt': '', 'imp': 1, 'u': 0, 'lat': 0, 'fill': 0,
                  'hasftr': False, 'ftr': {'o': [0, 0, 0], 'm': IDM}, 'ftrspell': 'num',
                  'hastrcl': False, 'trcl': {'o': [0, 0, 0], 'm': IDM}, 'trclspell': 'num',
-                 'lranges': [], 'lunivs': [], 'lsurfs': [], 'lvecs': [], 'like': 0, 'but': [],
+                 'lranges': [], 'lunivs': [], 'lsurfs': [], 'lvecs': [], 'latopt': False, 'like': 0, 'but': [],
                  'impsrc': 'cell'}
 SURF_DEFAULTS = {'d': 1, 'tr': 0, 'bc': '', 'hlen': 0, 'flen': 0}
 
@@ -305,3 +305,23 @@ def decorate_materials(deck, rng, classes_for=None, spellings='all'):
         c['rho'] = values.index(val) + 1
     deck['rhovalues'] = values
     return deck
+
+
+def simple_materials(deck, rhotxt='-1.0'):
+    """Materials as chosen by the generator, one density for all of them."""
+    for c in deck['cells']:
+        if c.get('mat'):
+            c['rhotxt'], c['rho'] = rhotxt, 1
+        else:
+            c['rhotxt'], c['rho'] = '', 0
+    deck['rhovalues'] = [mcnp_float(rhotxt)]
+    return deck
+
+
+def lattice_opts(deck):
+    """--lattice options for the lattice cells converted through FILL=n."""
+    out = []
+    for c in deck['cells']:
+        if c['lat'] and c.get('latopt'):
+            out += ['--lattice', '%d,%s' % (c['n'], ','.join('%d:%d' % (a, b) for a, b in c['lranges']))]
+    return out
